@@ -242,6 +242,11 @@ static void materialise(Ctx *x) {
             for (long i = 0; i < c->dxn && i < ne; i++) eset(x->dh, f->w, i, widen_e(c->dx[i], f->w));
         } else {
             dirty_fill(x->dh, x->dbytes, f);
+            if (c->d_pk == 3) {      /* a string of blanks only, and blanks in the memory in front of dest: a backward scan for the last non-blank has nothing to stop at */
+                for (long i = 0; i < c->d_pl && i < ne; i++) eset(x->dh, f->w, i, i & 1 ? '\t' : ' ');
+                if (c->d_pl < ne) eset(x->dh, f->w, c->d_pl, 0);
+                if (c->place == 0) for (long i = 1; i <= 128 / f->w; i++) eset(x->dh - 128, f->w, 128 / f->w - i, i & 1 ? ' ' : '\t');
+            }
             if (c->d_pk == 1) {
                 for (long i = 0; i < c->d_pl && i < ne; i++) eset(x->dh, f->w, i, 'p' + (i % 8));
                 if (c->d_pl < ne) eset(x->dh, f->w, c->d_pl, 0);
@@ -469,6 +474,9 @@ static void oracle(Ctx *x) {
             size_t decl = c->dmax * f->dunit;
             if (decl < x->dbytes && memcmp(x->dh + decl, x->dsnap + decl, x->dbytes - decl))
                 report(x, "canary-after-dmax|%s", relclass(x, b2));
+            if (c->place == 0 && x->dh) for (long i = 1; i <= 128 / f->w; i++) {      /* the memory in front of dest: filler, or blanks for prior kind 3 */
+                unsigned long want = c->d_pk == 3 ? (unsigned long)(i & 1 ? ' ' : '\t') : (f->w == 1 ? 0xEEUL : f->w == 2 ? 0xEEEEUL : 0xEEEEEEEEUL);
+                if (eget(x->dh - 128, f->w, 128 / f->w - i) != want) { report(x, "write-before-dest|%s%s", relclass(x, b2), c->d_pk == 3 ? ",blanks-in-front" : ""); break; } }
         }
         if (x->sh && !c->alias && memcmp(x->sh, x->ssnap, x->sbytes < sizeof x->ssnap ? x->sbytes : sizeof x->ssnap))
             report(x, "source-modified|%s", relclass(x, b2));
@@ -657,9 +665,10 @@ void gen_generic(int fi) {
         if (dmax * f->dunit % f->w && !(f->dunit == 1 && f->w > 1)) continue;   /* a byte dmax need not hold whole elements */
         long nel = dmax * f->dunit / f->w;
         /* prior dest contents */
-        int npri = 0; struct { int pk; long pl; } pri[48];
+        int npri = 0; struct { int pk; long pl; } pri[56];
         if (f->flags & (F_DSTR | F_QRY)) {
             for (long p = 0; p < nel && p <= N + 1; p++) { pri[npri].pk = 1; pri[npri++].pl = p; }
+            if (f->flags & F_DSTR) for (long p = 0; p < nel && p <= 3; p++) { pri[npri].pk = 3; pri[npri++].pl = p; }
             if (nel > N + 2) { pri[npri].pk = 1; pri[npri++].pl = nel - 1; pri[npri].pk = 1; pri[npri++].pl = nel - 2; }
             pri[npri].pk = 0; pri[npri++].pl = 0;
         } else {
